@@ -240,6 +240,10 @@ def gen_cases(tier, seed):
         for procs in ([2, 4] if q else [2, 4, 8]):
             for kind in ('surface', 'boxvol'):
                 cases.append(dict(mode='sched_voxelize', grid=grid, procs=procs, kind=kind))
+    for grid in ([[8, 8, 8], [3, 4, 5]] if q else [[8, 8, 8], [3, 4, 5], [5, 5, 5], [2, 2, 7]]):
+        for procs in ([2, 4] if q else [2, 4, 8]):
+            for kind in ('tinysurf', 'farsurf'):
+                cases.append(dict(mode='sched_voxelize', grid=grid, procs=procs, kind=kind))
     return cases
 
 
@@ -419,9 +423,12 @@ def _voxel_result(procs, kind, grid, seed):
         d['points'] = [[float(i), 2.0 * j, 3.0 * k] for k in range(2) for i in range(2) for j in range(2)]
         o = S.build(d, seed)
         o.sample_size_u, o.sample_size_v, o.sample_size_w = 4, 4, 4
-    elif kind == 'surface':
-        o = S.build(A.shape_desc([[0, 0, 0, 0.5, 1, 1, 1], [0, 0, 1, 1]], [2, 1], False, 3, 'coded'), seed)
-        o.sample_size_u, o.sample_size_v = 4, 3
+    elif kind in ('surface', 'tinysurf', 'farsurf'):
+        # (tinysurf / farsurf: the same surface in units of 1e-6 / moved by 1e6 - absolute paddings and tolerances of the
+        # single-process and the multi-process path have to agree there as well)
+        net = {'surface': 'coded', 'tinysurf': 'tiny', 'farsurf': 'large'}[kind]
+        o = S.build(A.shape_desc([[0, 0, 0, 0.5, 1, 1, 1], [0, 0, 1, 1]], [2, 1], False, 3, net), seed)
+        o.sample_size_u, o.sample_size_v = (4, 3) if kind == 'surface' else (9, 7)
     else:
         o = S.build(A.shape_desc([[0, 0, 1, 1], [0, 0, 0.5, 1, 1], [0, 0, 1, 1]], [1, 1, 1], True, 3, 'coded', 'coded'), seed)
         o.sample_size_u, o.sample_size_v, o.sample_size_w = 2, 3, 2
